@@ -630,6 +630,8 @@ Definition make_pair_member_m (wrapped : option bool) : ty :=
    structured binding of an etl::tuple is ill-formed (pair decomposes through its public members);
    get<T>(pair) / get<T>(tuple) are declared as friends of tuple but never defined *)
 Definition tuple_structured_binding_m : bool := false.
+(* tuple.hpp has no constructor from tuple<UTypes...> const& / && or from pair<U1, U2> const& / && *)
+Definition tuple_converting_ctor_m : bool := false.
 Definition get_by_type_m (is_pair : bool) : bool := false.
 
 (* ================================================================================================ *)
@@ -847,3 +849,57 @@ Definition cref_wf_m (a : ty) : bool :=
 (* reference_wrapper around std::function<i64(i64)> adding one, and around a callable taking a std::string of |x| mod 7
    characters: etl::invoke is called qualified, so these calls are not ambiguous with std::invoke (values only) *)
 Definition refwrap_std_m (x : Z) : Z * Z := (x + 1, Z.rem (Z.abs x) 7).
+
+(* ================================================================================================ *)
+(** * is_swappable_v<pair<T1, T2>> *)
+(* language / [swappable.requirements]: is_swappable_v<T> of one element type *)
+Definition elem_swappable (e : elem) : bool :=
+  match e with EInt | ELRef | ERRef | EMoveOnly => true | EConstInt | EConstLRef | ECopyOnly => false end.
+(* pair.hpp: swap(pair<T1,T2>&, pair<T1,T2>&) requires(is_swappable_v<T1> and is_swappable_v<T2>); when it does not
+   participate only the generic swap template remains, which needs a move-constructible and move-assignable pair *)
+Definition pair_swappable_m (a b : elem) : bool :=
+  (elem_swappable a && elem_swappable b)
+  || (nth 2 (pair_traits_m a b) false && nth 4 (pair_traits_m a b) false).
+
+(* function_ref and function pointers (op frefptr): function_ref(F* f) stores the pointer value, so (1) a later change of the
+   pointer object is not seen: f(v) = v + 1; (2) a function_ref made from a pointer temporary still calls the function after
+   the temporary is gone: v + 1; (3) assignment from a function re-binds: v + 1; (4) from a function pointer (to plus_two):
+   v + 2.  Assignment from a callable (lvalue or rvalue) is deleted in the derived classes; from a function pointer and from a
+   function_ref it is well-formed; the same for the noexcept signature *)
+Definition fref_ptr_m (v : Z) : list Z * list bool :=
+  ([v + 1; v + 1; v + 1; v + 2], [false; false; true; true; false; true]).
+
+(* ================================================================================================ *)
+(** * copies and moves of one tracked element on its way through the wrappers (op xfer) *)
+(* 10 per copy construction, 1 per move construction *)
+Definition cm (b : option built) : Z :=
+  match b with Some (Constructed false) => 10 | Some (Constructed true) => 1 | _ => 0 end.
+Definition VK : ty := mkty false RNone.
+(* the category the single bound argument of bind_front arrives with at the target, for a wrapper of category w *)
+Definition bound_arrives (w : ty) : ty :=
+  match bindfront_call_all_m w 1 [] with Some (_, b :: _) => b | _ => LV end.
+(* the category get<0> delivers to the callable of apply / make_from_tuple for a tuple operand of category c *)
+Definition applied_arrives (c : ty) : ty :=
+  match apply_cats_m LV c [VK] with Some (_, g :: _) => g | _ => LV end.
+Definition xfer_m : list Z :=
+  [ (* bind_front(show, x)(0): the bound argument is stored by tuple's constructor from an lvalue; show takes it by reference *)
+    cm (tuple_ctor_m VK LV);
+    (* bind_front(show, move(x))(0) *)
+    cm (tuple_ctor_m VK RV);
+    (* g = bind_front(take, Tr{1}): stored from the materialised temporary; g(0): take's by-value parameter is initialised
+       from the bound argument as it arrives from an lvalue wrapper; move(g)(0): from an rvalue wrapper *)
+    cm (tuple_ctor_m VK RV) + cm (init_elem VK (bound_arrives LV));
+    cm (tuple_ctor_m VK RV) + cm (init_elem VK (bound_arrives RV));
+    (* the callable itself: bind_front(f) / bind_front(F{...}): _func(etl::forward<F>(f)) *)
+    cm (do e <- perfect_fwd LV; init_elem VK e);
+    cm (do e <- perfect_fwd RV; init_elem VK e);
+    (* inplace_function(T&& closure): ::new (&_storage) C{etl::forward<T>(closure)} *)
+    cm (do e <- perfect_fwd LV; init_elem VK e);
+    cm (do e <- perfect_fwd RV; init_elem VK e);
+    (* make_tuple(Tr{1}, 2) *)
+    cm (make_tuple_transfer_m RV);
+    (* make_from_tuple<F>(tuple<Tr>{Tr{1}}): the tuple element is constructed from the temporary, then F's member from
+       get<0>(tuple&&) *)
+    cm (tuple_ctor_m VK RV) + cm (init_elem VK (applied_arrives RV));
+    (* apply(take, tuple<Tr, int>{Tr{1}, 0}): likewise, into take's by-value parameter *)
+    cm (tuple_ctor_m VK RV) + cm (init_elem VK (applied_arrives RV)) ].
